@@ -127,7 +127,16 @@ func (env *Env) eval(e Expr) (EV, error) {
 		n := *env
 		n.st = env.old
 		n.cur = env.st
-		return n.eval(x.X)
+		v, err := n.eval(x.X)
+		if err != nil {
+			return v, err
+		}
+		// a struct denoted by reference is read now, in the old state (a lazy reference would be
+		// dereferenced later, in whatever state the surrounding expression is evaluated in)
+		if _, lazy := v.V.(StructRefV); lazy && v.T != nil {
+			v.V = n.materialize(v)
+		}
+		return v, nil
 	case *EUnary:
 		v, err := env.eval(x.X)
 		if err != nil {
